@@ -32,6 +32,29 @@ claimed["C01"] = dict(
          "set; route sets outside the corpus are outside the claim.",
     design="5 C01", technique="bounded symbolic execution of go/ssa + SMT (z3, QF_BV), differential against reference matcher, native replay")
 
+T = "bounded symbolic execution of go/ssa + SMT (z3, QF_BV), differential against reference model, native replay"
+claimed["C08"] = dict(
+    text="Obligations (a) soundness, (b) completeness and (c) priority of the trailing-slash recommendation: bounded symbolic "
+         "execution of the real lookup code on corpus routers against the reference R-tsr (priority DFS on the slash-toggled "
+         "path, host mode first): for every Host and path within the bounds a recommendation is made exactly when a route "
+         "matches the adjusted path and no route matches directly, for the highest-priority such route, with the parameters "
+         "of the adjusted match. Obligations (d) dispatch, (e) Location and (f) irrelevance are not yet covered by this check "
+         "(see DESIGN.md).",
+    design="5 C08", technique=T)
+claimed["C09"] = dict(
+    text="Bounded symbolic execution of the real lookup (incl. netutil.StripHostPort and net.SplitHostPort from source) for "
+         "every Host header up to N bytes: hostname routes match only the whole host after port / trailing-dot removal, label "
+         "for label; path-only routes are the fallback; methods without hostname routes ignore the Host. Hosts with brackets "
+         "or several colons are a stated don't-care region of the reference.",
+    design="5 C09", technique=T)
+claimed["C16"] = dict(
+    text="Partial claim: for every matching request within the bounds, in steady state (same request served once before), no "
+         "SSA instruction that can heap-allocate is executed between ServeHTTP entry and return (allocation-event monitor of "
+         "the executor, decided per path class by the solver); every event found is re-measured natively with "
+         "testing.AllocsPerRun before it is reported, and sampled passing path classes are measured natively as 0 allocs. "
+         "Compile-time allocation decisions (escape analysis) are outside what the solver sees.",
+    design="5 C16", technique="bounded symbolic execution of go/ssa + SMT with an allocation-event monitor; native AllocsPerRun on witnesses")
+
 reasons = {}
 
 ids = [json.loads(l)["id"] for l in open("/verif/properties.jsonl")]
